@@ -1,15 +1,159 @@
 (* C11 - YAML output reads back as the same data; JSON fed to the YAML decoder
-   means JSON.  Statements only, closed by [exact], and Print Assumptions. *)
-From Verif Require Import Yaml.Scalar Yaml.Examples.
+   means JSON.  Statements only, closed by [exact], and Print Assumptions.
+
+   Strings are lists of code points.  [choose_style], [emit_*] model the encoder
+   of the pinned tree (internal/encoding/yaml/goccy/encode.go + the third-party
+   emitter), [parse_*], [read_any] the YAML 1.2 reading of what it writes.  The
+   oracles (unicode.IsPrint, token.ToNumber, token.isNumber, token.isTimestamp)
+   are universally quantified; the two hypotheses about them are validated on
+   every generated case by the harness. *)
+From Verif Require Import Yaml.Scalar Yaml.Proofs Yaml.Literal Yaml.Style Yaml.Examples.
 From Coq Require Import List NArith Bool.
 Import ListNotations.
 Open Scope N_scope.
 
-(* F4: the string "\n" is literal-safe for the encoder, is written as "|\n\n" and reads back as "" *)
-Theorem C11_literal_refuted_newline : forall tok_number tok_isnumber tok_timestamp,
-    block_literal_safe [c_nl] = true /\
-    value_style tok_number tok_isnumber tok_timestamp true [c_nl] = Literal /\
-    emit_literal 2 [c_nl] = [124; 10; 10] /\
-    parse_literal 0 false (emit_literal 2 [c_nl]) = Some [].
+(* every string written by strconv.Quote (the encoder's double-quoted form) reads back *)
+Theorem C11_double_roundtrip : forall is_print : N -> bool,
+  (forall c, is_print c = true -> is_break c = false) ->
+  forall s, Forall rune32 s -> parse_double (emit_double is_print s) = Some s.
+Proof. exact double_roundtrip. Qed.
+Print Assumptions C11_double_roundtrip.
+
+(* the literal block written for s reads back as s exactly under literal_ok *)
+Theorem C11_literal_roundtrip_when : forall n p root s,
+  literal_ok s = true -> (p < n)%nat -> parse_literal p root (emit_literal n s) = Some s.
+Proof. exact literal_roundtrip_when. Qed.
+Print Assumptions C11_literal_roundtrip_when.
+
+(* what blockLiteralSafe (the encoder's test) does not imply: exactly the two classes of literal_gap *)
+Theorem C11_literal_safe_gap : forall s,
+  block_literal_safe s = true -> literal_ok s = false -> literal_gap s = true.
+Proof. exact literal_safe_gap. Qed.
+Print Assumptions C11_literal_safe_gap.
+
+(* F4: the value "\n" is written as "|\n\n" and reads back as "" *)
+Theorem C11_literal_refuted_newline :
+  block_literal_safe nl1 = true /\
+  ex_choose false true nl1 = Literal /\
+  ex_doc Literal 2 nl1 val_suffix = [124; 10; 10] /\
+  ex_read 0 false false val_suffix (ex_doc Literal 2 nl1 val_suffix) = Some [] /\
+  literal_ok nl1 = false /\ literal_gap nl1 = true.
 Proof. exact literal_refuted_newline. Qed.
 Print Assumptions C11_literal_refuted_newline.
+
+(* "\n a" is written as "|-\n\n   a\n" and reads back as "\na" *)
+Theorem C11_literal_refuted_space :
+  block_literal_safe nl_sp_a = true /\
+  ex_choose false true nl_sp_a = Literal /\
+  ex_read 0 false false val_suffix (ex_doc Literal 2 nl_sp_a val_suffix) = Some [10; 97] /\
+  literal_ok nl_sp_a = false /\ literal_gap nl_sp_a = true.
+Proof. exact literal_refuted_space. Qed.
+Print Assumptions C11_literal_refuted_space.
+
+(* a string satisfying plain_ok, followed by the end of the line or by ": ", is scanned as itself *)
+Theorem C11_plain_roundtrip_when : forall col0 s tail,
+  plain_ok col0 s = true -> stops_scan tail -> parse_plain (s ++ tail) = (s, tail).
+Proof. exact plain_roundtrip_when. Qed.
+Print Assumptions C11_plain_roundtrip_when.
+
+(* single-quoted forms *)
+Theorem C11_single_cue_roundtrip_when : forall s,
+  existsb is_break s = false -> parse_single (emit_single_cue s) = Some s.
+Proof. exact single_cue_roundtrip_when. Qed.
+Print Assumptions C11_single_cue_roundtrip_when.
+
+Theorem C11_single_go_roundtrip_when : forall is_print : N -> bool,
+  (forall c, is_print c = true -> is_break c = false) ->
+  forall s, forallb (sq_safe is_print) s = true -> parse_single (emit_single_go is_print s) = Some s.
+Proof. exact single_go_roundtrip_when. Qed.
+Print Assumptions C11_single_go_roundtrip_when.
+
+(* a scalar the encoder leaves plain resolves to a string (not number / bool / null) in the decoder *)
+Theorem C11_plain_choice_resolves_str : forall tok_number tok_isnumber tok_timestamp : str -> bool,
+  (forall t, tok_number t = true -> tok_isnumber t = true) ->
+  forall is_key multi s,
+    choose_style tok_number tok_isnumber tok_timestamp is_key multi s = Plain ->
+    resolve_plain tok_number s = TStr.
+Proof. exact plain_choice_resolves_str. Qed.
+Print Assumptions C11_plain_choice_resolves_str.
+
+(* ... and is syntactically a plain scalar, except three dots in column 0 *)
+Theorem C11_plain_choice_ok : forall tok_number tok_isnumber tok_timestamp is_key multi col0 s,
+  choose_style tok_number tok_isnumber tok_timestamp is_key multi s = Plain ->
+  plain_ok col0 s = true \/ (col0 = true /\ dots_marker s = true).
+Proof. exact plain_choice_ok. Qed.
+Print Assumptions C11_plain_choice_ok.
+
+(* the style decision as a whole: outside style_gap the document text of the scalar reads back as the string *)
+Theorem C11_style_choice_safe_when :
+  forall (is_print : N -> bool) (tok_number tok_isnumber tok_timestamp : str -> bool),
+  (forall c, is_print c = true -> is_break c = false) ->
+  (forall t, tok_number t = true -> tok_isnumber t = true) ->
+  forall is_key multi col0 root p n s suffix,
+    Forall rune32 s -> (p < n)%nat -> suffix_ok suffix ->
+    style_gap is_print col0 (choose_style tok_number tok_isnumber tok_timestamp is_key multi s) s = false ->
+    read_any tok_number p root col0 suffix
+      (emit_doc is_print (choose_style tok_number tok_isnumber tok_timestamp is_key multi s) n s suffix) = Some s.
+Proof. exact style_choice_safe_when. Qed.
+Print Assumptions C11_style_choice_safe_when.
+
+(* for literal blocks the gap is exactly literal_gap *)
+Theorem C11_literal_choice_gap : forall tok_number tok_isnumber tok_timestamp is_key multi s,
+  choose_style tok_number tok_isnumber tok_timestamp is_key multi s = Literal ->
+  literal_ok s = false -> literal_gap s = true.
+Proof. exact literal_choice_gap. Qed.
+Print Assumptions C11_literal_choice_gap.
+
+(* the gap is inhabited: witnesses for each class (oracles as the implementation's libraries answer on them) *)
+Theorem C11_style_choice_refuted_dots :
+  ex_choose false false dots = Plain /\ ex_choose true false dots = Plain /\
+  style_gap ex_print true Plain dots = true /\
+  plain_ok true dots = false /\
+  ex_read 0 true true val_suffix (ex_doc Plain 2 dots val_suffix) = None.
+Proof. exact style_choice_refuted_dots. Qed.
+Print Assumptions C11_style_choice_refuted_dots.
+
+Theorem C11_style_choice_refuted_nbsp :
+  ex_choose false false hash_nbsp = SingleGo /\
+  style_gap ex_print false SingleGo hash_nbsp = true /\
+  ex_doc SingleGo 2 hash_nbsp val_suffix = [39; 35; 92; 117; 48; 48; 97; 48; 39; 10] /\
+  ex_read 0 false false val_suffix (ex_doc SingleGo 2 hash_nbsp val_suffix) = Some [35; 92; 117; 48; 48; 97; 48].
+Proof. exact style_choice_refuted_nbsp. Qed.
+Print Assumptions C11_style_choice_refuted_nbsp.
+
+Theorem C11_style_choice_refuted_cr :
+  ex_choose false false qm_cr = SingleCue /\
+  style_gap ex_print false SingleCue qm_cr = true /\
+  ex_read 0 false false val_suffix (ex_doc SingleCue 2 qm_cr val_suffix) = None.
+Proof. exact style_choice_refuted_cr. Qed.
+Print Assumptions C11_style_choice_refuted_cr.
+
+(* JSON scalars: every JSON escape is a YAML escape with the same meaning; true/false/null resolve alike *)
+Theorem C11_json_escapes_same : forall e v, json_simple_escape e = Some v -> simple_escape e = Some v.
+Proof. exact json_escapes_same. Qed.
+Print Assumptions C11_json_escapes_same.
+
+Theorem C11_json_literals_resolve : forall tok_number,
+  resolve_plain tok_number [116; 114; 117; 101] = TBool /\
+  resolve_plain tok_number [102; 97; 108; 115; 101] = TBool /\
+  resolve_plain tok_number [110; 117; 108; 108] = TNull.
+Proof. exact json_literals_resolve. Qed.
+Print Assumptions C11_json_literals_resolve.
+
+(* non-vacuity *)
+Example C11_literal_ok_example :
+  literal_ok multi_ex = true /\ ex_choose false true multi_ex = Literal /\
+  ex_read 2 false false val_suffix (ex_doc Literal 4 multi_ex val_suffix) = Some multi_ex.
+Proof. exact literal_ok_example. Qed.
+Print Assumptions C11_literal_ok_example.
+
+Example C11_gap_false_example :
+  style_gap ex_print true (ex_choose true false [97; 32; 98]) [97; 32; 98] = false /\
+  style_gap ex_print false (ex_choose false false [105; 116; 39; 115]) [105; 116; 39; 115] = false.
+Proof. exact gap_false_example. Qed.
+Print Assumptions C11_gap_false_example.
+
+Example C11_oracle_hypotheses_inhabited :
+  (forall c, ex_print c = true -> is_break c = false) /\ (forall t, ex_no t = true -> ex_no t = true).
+Proof. exact (conj ex_print_not_break ex_number_isnumber). Qed.
+Print Assumptions C11_oracle_hypotheses_inhabited.
